@@ -183,6 +183,10 @@ func (s *FastModularNetworkSolver) recursiveActivateNode(currentNode int) (res b
 
 	// Set the pre-signal to 0
 	s.neuronSignalsBeingProcessed[currentNode] = 0
+	if s.biasNeuronCount > 0 {
+		// append BIAS value to the signal if appropriate (as forward propagation does)
+		s.neuronSignalsBeingProcessed[currentNode] += s.biasList[currentNode]
+	}
 
 	// Adjacency list in reverse holds incoming connections, go through each one and activate it
 	for i := 0; i < len(s.reverseAdjacentList[currentNode]); i++ {
